@@ -880,7 +880,13 @@ PROPS = {
                                   "C07_vm_set_property", "C07_vm_len", "C07_vm_append_table",
                                   "C07_vm_pop_table", "C07_vm_nth_row", "C07_vm_for_each",
                                   "C07_vm_reference_sharing", "C07_vm_tables_wf_preserved",
-                                  "C07_vm_tables_wf_initial"]},
+                                  "C07_vm_tables_wf_initial",
+                                  "C07_vm_key_checked_run_tables_wf", "C07_vm_run_agrees_key_checked",
+                                  "C07_vm_tables_wf_run", "C07_vm_tables_wf_nested_run",
+                                  "C07_vm_nested_runs_entered_with_invariant",
+                                  "C07_vm_run_set_property_in_order", "C07_vm_key_is_value",
+                                  "C07_vm_table_user_view", "C07_vm_run_fresh_user_view",
+                                  "C07_vm_nan_key_table", "C07_vm_set_property_nan"]},
         n_quick=150, n_thorough=2500,
         gates=["tb.pop_then_append", "tb.more_than_8_entries", "tb.string_keys", "tb.removed_present"],
         rule="random histories (15-250 ops) on a CaoLangTable obtained from a Vm: insert / remove / append / pop / "
@@ -907,7 +913,21 @@ PROPS = {
             "heap) is a one-step theorem with two hypotheses: the key of a SetProperty lies in the key domain (a "
             "NaN key, a table used as key or a dangling address breaks the alignment of map part and key vector - "
             "the code has no guard), and nested runs started by natives keep the invariant (the same statement one "
-            "level down); no run-level induction over nesting depth is stated",
+            "level down)",
+            "run level (C07_vm_tables_wf_run, C07_vm_tables_wf_nested_run, C07_vm_key_checked_run_tables_wf, "
+            "C07_vm_run_agrees_key_checked): by induction over the nesting depth of run_function re-entry, every "
+            "state the dispatch loops of a run pass through and its final state satisfy the table invariant, for "
+            "arbitrary bytecode, budget, build and any start state with the invariant, PROVIDED no executed "
+            "SetProperty has a key outside the key domain; the proviso is stated through the key-checked VM run_k "
+            "(the VM with that single run-time check, stopping with AUnmodelled): run_k keeps the invariant "
+            "unconditionally and a run on which the check never fails is the key-checked run; the state list of "
+            "a run is that of its own dispatch loop: its nested runs are covered through "
+            "C07_vm_nested_runs_entered_with_invariant (natives enter nested runs only in states with the "
+            "invariant) plus the nested-run theorem, states inside a native by the native lemmas only; "
+            "the legacy budget rule (run_legacy) is not covered",
+            "NaN keys: only the behaviour of the table operations is stated (C07_vm_nan_key_table, "
+            "C07_vm_set_property_nan: every insert adds a row, reads find nothing, iteration skips the row, len "
+            "counts it, pop leaves the row in the map part); no invariant is proved for runs that use NaN keys",
             "remove deletes every entry whose key is == to the argument (for reals: also the other zero), which is "
             "what keys.retain does; it coincides with deleting the entry that get finds when == and the hash test "
             "agree on the table's keys (VmTableProofs.al_remove_single)",
